@@ -9,7 +9,8 @@
 EXTENDS Naturals, Sequences, FiniteSets, TLC, Json
 
 CONSTANTS Ns,         \* node counts
-          Variants,   \* wrapper variants 1..7: plain, optional, sequence, dictionary value, dictionary key, result success, result failure
+          Variants,   \* wrapper variants 1..9: plain, optional, sequence, dictionary value, dictionary key, result success, result failure,
+                      \* tagged optional ('tag(k) f: T?'), tagged optional sequence ('tag(k) f: Sequence<T>?')
           Mixed,      \* set of BOOLEAN: rotate the wrapper over the edges
           KindPats,   \* subset of {"struct", "enum", "alt"}
           Compacts,   \* set of BOOLEAN
@@ -34,17 +35,17 @@ Next == AddEdge
 EdgeList == LET ranks == {Rank(p, n) : p \in g} IN
             [i \in 1..Cardinality(g) |->
                CHOOSE p \in g : Cardinality({q \in g : Rank(q, n) < Rank(p, n)}) = i - 1]
-Wrapper(i) == IF mixed THEN ((v + i - 2) % 7) + 1 ELSE v
+Wrapper(i) == IF mixed THEN ((v + i - 2) % 9) + 1 ELSE v
 
 Emit == PrintT(<<"CASE", ToJson([family |-> Family, n |-> n,
                                  edges |-> [i \in 1..Cardinality(g) |-> [a |-> EdgeList[i][1], b |-> EdgeList[i][2], w |-> Wrapper(i)]],
                                  kinds |-> kinds, compact |-> compact])>>)
 
 \* alias family: t[i] in 0..n; every alias names its target directly or through an anonymous type (AliasWrappers:
-\* 1 direct, 3 Sequence<T>, 4 Dictionary<int32, T>, 6 Result<T, bool>, 7 Result<Sequence<bool>, T?>) - a loop through
-\* anonymous types is a loop ('typealias A = Sequence<A>')
-AliasWrappers == <<1, 3, 4, 6, 7>>
-AliasWrapper(i) == IF mixed THEN AliasWrappers[((v + i - 2) % 5) + 1] ELSE AliasWrappers[v]
+\* 1 direct, 3 Sequence<T>, 4 Dictionary<int32, T>, 5 Dictionary<T, int32>, 6 Result<T, bool>, 7 Result<Sequence<bool>, T?>)
+\* - a loop through anonymous types is a loop ('typealias A = Sequence<A>', 'typealias A = Dictionary<A, int32>')
+AliasWrappers == <<1, 3, 4, 6, 7, 5>>
+AliasWrapper(i) == IF mixed THEN AliasWrappers[((v + i - 2) % 6) + 1] ELSE AliasWrappers[v]
 InitAlias == /\ n \in Ns /\ v \in Variants /\ mixed \in Mixed /\ kinds = "struct" /\ compact = FALSE /\ last = 0
              /\ g \in [1..n -> 0..n]
 EmitAlias == PrintT(<<"CASE", ToJson([family |-> "alias", n |-> n, target |-> g, w |-> [i \in 1..n |-> AliasWrapper(i)]])>>)
